@@ -32,9 +32,11 @@ def norm_cfg(c):
     pts = []
     for p in c.get("points", []):
         ty = p["ty"]
+        init = p.get("init") if isinstance(p.get("init"), dict) else {}
         pts.append({"ty": ty, "ix": p["ix"], "cls": p.get("cls", 0),
                     "svar": p.get("svar") or DEFAULT_SVAR[ty],
-                    "evar": p.get("evar") or DEFAULT_EVAR[ty]})
+                    "evar": p.get("evar") or DEFAULT_EVAR[ty],
+                    "init": s(init.get("val")) if "val" in init else "?"})
     cz = c.get("class_zero")
     if cz is None:
         cz = [True, True, True, True, True, True, True, False]
